@@ -1,34 +1,3 @@
-// ---- specification (from the property statement, not from the code) -------
-
-/// `a` is a power of two representable in 64 bits.
-pub open spec fn is_pow2(a: int) -> bool {
-    a == 0x1 || a == 0x2 || a == 0x4 || a == 0x8 || a == 0x10 || a == 0x20 || a == 0x40 || a == 0x80
-    || a == 0x100 || a == 0x200 || a == 0x400 || a == 0x800 || a == 0x1000 || a == 0x2000 || a == 0x4000 || a == 0x8000
-    || a == 0x1_0000 || a == 0x2_0000 || a == 0x4_0000 || a == 0x8_0000 || a == 0x10_0000 || a == 0x20_0000 || a == 0x40_0000 || a == 0x80_0000
-    || a == 0x100_0000 || a == 0x200_0000 || a == 0x400_0000 || a == 0x800_0000 || a == 0x1000_0000 || a == 0x2000_0000 || a == 0x4000_0000 || a == 0x8000_0000
-    || a == 0x1_0000_0000 || a == 0x2_0000_0000 || a == 0x4_0000_0000 || a == 0x8_0000_0000
-    || a == 0x10_0000_0000 || a == 0x20_0000_0000 || a == 0x40_0000_0000 || a == 0x80_0000_0000
-    || a == 0x100_0000_0000 || a == 0x200_0000_0000 || a == 0x400_0000_0000 || a == 0x800_0000_0000
-    || a == 0x1000_0000_0000 || a == 0x2000_0000_0000 || a == 0x4000_0000_0000 || a == 0x8000_0000_0000
-    || a == 0x1_0000_0000_0000 || a == 0x2_0000_0000_0000 || a == 0x4_0000_0000_0000 || a == 0x8_0000_0000_0000
-    || a == 0x10_0000_0000_0000 || a == 0x20_0000_0000_0000 || a == 0x40_0000_0000_0000 || a == 0x80_0000_0000_0000
-    || a == 0x100_0000_0000_0000 || a == 0x200_0000_0000_0000 || a == 0x400_0000_0000_0000 || a == 0x800_0000_0000_0000
-    || a == 0x1000_0000_0000_0000 || a == 0x2000_0000_0000_0000 || a == 0x4000_0000_0000_0000 || a == 0x8000_0000_0000_0000
-}
-
-/// The gap the format prescribes before a block with unit `a` at offset `v`:
-/// the smallest g >= 0 with (v + g) a multiple of a.
-pub open spec fn pad_spec(v: int, a: int) -> int {
-    (a - v % a) % a
-}
-pub open spec fn completes(v: int, g: int, a: int) -> bool {
-    (v + g) % a == 0
-}
-
-/// std: two's complement negation.
-pub assume_specification[ usize::wrapping_neg ](x: usize) -> (r: usize)
-    ensures r as int == (if x == 0 { 0int } else { 0x1_0000_0000_0000_0000int - x as int });
-
 // ---- lemmas ----------------------------------------------------------------
 
 proof fn lemma_pow2_bits(a: u64)
@@ -159,8 +128,9 @@ proof fn lemma_gap_unique(v: int, a: int, r: int)
 {
     let m = v % a;
     assert(0 <= m < a) by (nonlinear_arith) requires a > 0, m == v % a;
-    assert((m + r) % a == 0) by (nonlinear_arith)
-        requires a > 0, m == v % a, (v + r) % a == 0;
+    vstd::arithmetic::div_mod::lemma_add_mod_noop(v, r, a);
+    vstd::arithmetic::div_mod::lemma_small_mod(r as nat, a as nat);
+    assert((m + r) % a == 0);
     if m + r < a {
         assert(m + r == 0) by (nonlinear_arith) requires 0 <= m + r < a, (m + r) % a == 0, a > 0;
         assert((a - 0) % a == 0) by (nonlinear_arith) requires a > 0;
